@@ -53,9 +53,15 @@ func mkSetter(r *rand.Rand, a setArg) stun.Setter {
 	case "reason":
 		return stun.ErrorCodeAttribute{Code: stun.ErrorCode(300 + r.Intn(400)), Reason: randBytes(r, a.N)}
 	case "xorip":
-		return stun.XORMappedAddress{IP: net.IP(randBytes(r, a.N)), Port: r.Intn(65536)}
+		return stun.XORMappedAddress{IP: ipBytes(r, a.N), Port: r.Intn(65536)}
 	case "mappedip":
-		return &stun.MappedAddress{IP: net.IP(randBytes(r, a.N)), Port: r.Intn(65536)}
+		return &stun.MappedAddress{IP: ipBytes(r, a.N), Port: r.Intn(65536)}
+	case "altserver":
+		return &stun.AlternateServer{IP: ipBytes(r, a.N), Port: r.Intn(65536)}
+	case "origin":
+		return &stun.ResponseOrigin{IP: ipBytes(r, a.N), Port: r.Intn(65536)}
+	case "other":
+		return &stun.OtherAddress{IP: ipBytes(r, a.N), Port: r.Intn(65536)}
 	case "errorcode":
 		return stun.ErrorCode(a.N)
 	case "integrity":
@@ -66,6 +72,31 @@ func mkSetter(r *rand.Rand, a setArg) stun.Setter {
 		return stun.Fingerprint
 	}
 	panic("setter " + a.Setter)
+}
+
+// ipFill selects what an IP argument of a given length is made of (the length alone decides acceptance)
+var ipFill int
+
+func ipBytes(r *rand.Rand, n int) net.IP {
+	b := randBytes(r, n)
+	switch ipFill % 4 {
+	case 1: // starts like an IPv4-mapped IPv6 address
+		for i := 0; i < n && i < 12; i++ {
+			b[i] = 0
+			if i >= 10 {
+				b[i] = 0xff
+			}
+		}
+	case 2:
+		for i := range b {
+			b[i] = 0
+		}
+	case 3:
+		for i := range b {
+			b[i] = 0xff
+		}
+	}
+	return net.IP(b)
 }
 
 func ctxMessage(r *rand.Rand, ctx string) *stun.Message {
@@ -160,10 +191,13 @@ func TestVerifC09(t *testing.T) {
 			for _, n := range textLens(763, full) {
 				emitSet(tw, r, setArg{s.Setter, n}, s.Ctx)
 			}
-		case "xorip", "mappedip":
-			for n := 0; n <= 20; n++ {
-				emitSet(tw, r, setArg{s.Setter, n}, s.Ctx)
+		case "xorip", "mappedip", "altserver", "origin", "other":
+			for n := 0; n <= 36; n++ {
+				for ipFill = 0; ipFill < 4; ipFill++ {
+					emitSet(tw, r, setArg{s.Setter, n}, s.Ctx)
+				}
 			}
+			ipFill = 0
 		case "errorcode":
 			for code := 0; code <= 999; code++ {
 				if full || s.Ctx == "one" || code%7 == 0 {
@@ -184,7 +218,7 @@ func TestVerifC09(t *testing.T) {
 	good := []setArg{{"username", 10}, {"realm", 763}, {"software", 0}, {"xorip", 4}, {"mappedip", 16}, {"errorcode", 438},
 		{"raw", 5}, {"reason", 763}, {"nonce", 1}, {"integrity", 8}, {"fingerprint", 0}}
 	bad := []setArg{{"username", 514}, {"realm", 764}, {"nonce", 1000}, {"software", 764}, {"xorip", 5}, {"mappedip", 0},
-		{"errorcode", 666}, {"reason", 764}, {"xorip", 15}, {"errorcode", 299}}
+		{"errorcode", 666}, {"reason", 764}, {"xorip", 15}, {"errorcode", 299}, {"other", 18}, {"origin", 20}, {"altserver", 17}}
 	for i := 0; i < nb; i++ {
 		n := 1 + r.Intn(6)
 		list := make([]setArg, n)
@@ -196,6 +230,7 @@ func TestVerifC09(t *testing.T) {
 			list[r.Intn(n)] = bad[r.Intn(len(bad))]
 		}
 		setters := make([]stun.Setter, n)
+		ipFill = i
 		for j, a := range list {
 			setters[j] = mkSetter(r, a)
 		}
